@@ -1,5 +1,30 @@
-"""Call site with a real lambda capturing a variable (C13 'captured' entry point)."""
+"""Call sites with a real lambda capturing a value (C13 'captured*' entry points): closure variable, module global,
+attribute of a module, constant of a class."""
+import types
+
+G = None
+cfgmod = types.ModuleType("c13_cfgmod")
+
+
+class Cfg:
+    V = None
 
 
 def select_with_captured(ds, x):
     return ds.Select(lambda e: e.f(x))
+
+
+def select_with_global(ds, x):
+    global G
+    G = x
+    return ds.Select(lambda e: e.f(G))
+
+
+def select_with_modattr(ds, x):
+    cfgmod.V = x
+    return ds.Select(lambda e: e.f(cfgmod.V))
+
+
+def select_with_clsattr(ds, x):
+    Cfg.V = x
+    return ds.Select(lambda e: e.f(Cfg.V))
